@@ -270,6 +270,13 @@ class LSMTree(Entity):
         self._total_sstables_checked: int = 0
         self._total_bloom_saves: int = 0
 
+        # Compactions run one at a time: each one merges a snapshot of the tables it
+        # selected, so a second one started during its write latency would install a
+        # stale merge (and could drop a tombstone that still shadows data the first
+        # one is about to install). Requests arriving meanwhile are remembered.
+        self._compacting: bool = False
+        self._compaction_requested: bool = False
+
     def downstream_entities(self) -> list[Entity]:
         if self._wal is not None:
             return [self._wal]
@@ -559,7 +566,26 @@ class LSMTree(Entity):
             self._compact_sync()
 
     def _compact(self) -> Generator[float]:
-        """Run a compaction cycle."""
+        """Run a compaction cycle (at most one at a time).
+
+        A request that arrives while a cycle is in flight is deferred: the running
+        cycle re-evaluates the strategy once it has installed its result.
+        """
+        if self._compacting:
+            self._compaction_requested = True
+            return
+        self._compacting = True
+        try:
+            yield from self._compact_once()
+            while self._compaction_requested:
+                self._compaction_requested = False
+                if self._compaction_strategy.should_compact(self._levels):
+                    yield from self._compact_once()
+        finally:
+            self._compacting = False
+
+    def _compact_once(self) -> Generator[float]:
+        """Merge the selected SSTables into the next level."""
         source_level, sstables = self._compaction_strategy.select_compaction(self._levels)
         if not sstables:
             return
@@ -614,6 +640,11 @@ class LSMTree(Entity):
 
     def _compact_sync(self) -> None:
         """Run compaction without yielding latency."""
+        if self._compacting:
+            # A generator-based cycle is suspended on its write latency; it will
+            # re-evaluate the strategy when it finishes.
+            self._compaction_requested = True
+            return
         source_level, sstables = self._compaction_strategy.select_compaction(self._levels)
         if not sstables:
             return
